@@ -88,20 +88,26 @@ class ConstFeaturesCalculator(FeaturesCalculator):
         self.const = torch.tensor(const)
         self.mask = torch.ones((const,))
         self.mod = None
+        self.const_name = 'feat_calc_const'
+        self.mask_name = 'feat_calc_mask'
 
     @property
     def features(self) -> torch.Tensor:
-        return cast(torch.Tensor, cast(nn.Module, self.mod).feat_calc_const)
+        return cast(torch.Tensor, getattr(cast(nn.Module, self.mod), self.const_name))
 
     @property
     def features_mask(self) -> torch.Tensor:
-        return cast(torch.Tensor, cast(nn.Module, self.mod).feat_calc_mask)
+        return cast(torch.Tensor, getattr(cast(nn.Module, self.mod), self.mask_name))
 
     def register(self, mod: nn.Module, prefix: str = ""):
         if self.mod is None:
             self.mod = mod
-            mod.register_buffer('feat_calc_const', self.const)
-            mod.register_buffer('feat_calc_mask', self.mask)
+            # the prefix makes the buffer names unique when several calculators are registered
+            # on the same module (e.g., concatenation of two fixed-width tensors)
+            self.const_name = prefix + 'feat_calc_const'
+            self.mask_name = prefix + 'feat_calc_mask'
+            mod.register_buffer(self.const_name, self.const)
+            mod.register_buffer(self.mask_name, self.mask)
 
 
 class ModAttrFeaturesCalculator(FeaturesCalculator):
@@ -152,29 +158,35 @@ class FlattenFeaturesCalculator(FeaturesCalculator):
         self.mod = None
         self.multiplier = torch.tensor(multiplier)
         self.mask_expander = torch.ones((multiplier,))
+        self.multiplier_name = 'feat_calc_multiplier'
+        self.mask_expander_name = 'feat_calc_mask_expander'
 
     @property
     def features(self) -> torch.Tensor:
-        mul = cast(nn.Module, self.mod).feat_calc_multiplier
+        mul = getattr(cast(nn.Module, self.mod), self.multiplier_name)
         return mul * self.prev.features
 
     @property
     def features_mask(self) -> torch.Tensor:
         prev_mask = self.prev.features_mask
+        mask_expander = getattr(cast(nn.Module, self.mod), self.mask_expander_name)
         mask_list = []
         for elm in prev_mask:
-            mask_list.append(elm * cast(nn.Module, self.mod).feat_calc_mask_expander)
+            mask_list.append(elm * mask_expander)
         mask = torch.cat(mask_list, dim=0)
         return mask
 
     def register(self, mod: nn.Module, prefix: str = ""):
         # recursively ensure that predecessors are registers
-        prefix = "prev_" + prefix
-        self.prev.register(mod, prefix)
+        self.prev.register(mod, "prev_" + prefix)
         if self.mod is None:
             self.mod = mod
-            mod.register_buffer('feat_calc_multiplier', self.multiplier)
-            mod.register_buffer('feat_calc_mask_expander', self.mask_expander)
+            # the prefix makes the buffer names unique when several calculators are registered
+            # on the same module
+            self.multiplier_name = prefix + 'feat_calc_multiplier'
+            self.mask_expander_name = prefix + 'feat_calc_mask_expander'
+            mod.register_buffer(self.multiplier_name, self.multiplier)
+            mod.register_buffer(self.mask_expander_name, self.mask_expander)
 
 
 class ConcatFeaturesCalculator(FeaturesCalculator):
@@ -205,5 +217,4 @@ class ConcatFeaturesCalculator(FeaturesCalculator):
     def register(self, mod: nn.Module, prefix: str = ""):
         # recursively ensure that predecessors are registers
         for i, fc in enumerate(self.inputs):
-            prefix = f"prev_{i}" + prefix
-            fc.register(mod, prefix)
+            fc.register(mod, f"prev_{i}" + prefix)
